@@ -96,7 +96,7 @@ def _const_table_rows(lib, b, o, name_terms, fn_operand):
     if not nt or len(nt) != 1:
         return None
     base, idx = next(iter(nt))
-    if idx != "0" or base[0] != "promoted":
+    if idx != "0" or base[0] not in ("promoted", "const"):
         return None
     # the function value: result of an indirect call whose callee is field 1 of the same element
     ft = o.of_operand(fn_operand)
@@ -106,20 +106,24 @@ def _const_table_rows(lib, b, o, name_terms, fn_operand):
     fbb, fcall = calls[0]
     if table_of(o.of_operand(fcall["func"])) != {(base, "1")} or fcall["args"]:
         return None
-    # the table itself: promoted -> &CONST -> the const's initialiser
-    pb = lib.promoted(b.deff, base[1])
+    # the table itself: (promoted ->) &CONST -> the const's initialiser (-> its own promoted array for a `&[..]` const)
     cdef = None
-    if pb is not None:
-        for _, _, st in pb.stmts(reachable_only=False):
-            if st["k"] == "assign":
-                for op in ([st["rv"].get("op")] if st["rv"].get("op") else []) + list(st["rv"].get("ops", [])):
-                    if isinstance(op, dict) and op.get("k") == "const" and op.get("uneval"):
-                        cdef = op["uneval"]
-                if st["rv"]["k"] == "ref" and st["rv"]["place"].get("l") is not None:
-                    pass
+    if base[0] == "const" and isinstance(base[1], str) and "::" in base[1]:
+        cdef = base[1]
+    else:
+        pb = lib.promoted(b.deff, base[1])
+        if pb is not None:
+            for _, _, st in pb.stmts(reachable_only=False):
+                if st["k"] == "assign":
+                    for op in ([st["rv"].get("op")] if st["rv"].get("op") else []) + list(st["rv"].get("ops", [])):
+                        if isinstance(op, dict) and op.get("k") == "const" and op.get("uneval"):
+                            cdef = op["uneval"]
+    cands = [x for x in lib.bodies if x.deff == cdef and x.kind in ("const", "promoted")]
     cb = None
-    for x in lib.bodies:
-        if x.kind == "const" and x.promoted is None and x.deff == cdef:
+    for x in cands:
+        if any(st["k"] == "assign" and st["rv"]["k"] == "agg" and st["rv"].get("ak") == "array" for _, _, st in x.stmts(reachable_only=False)):
+            if cb is not None:
+                return None
             cb = x
     if cb is None:
         return None
@@ -142,7 +146,15 @@ def _const_table_rows(lib, b, o, name_terms, fn_operand):
             tys = set()
             for x in tup[2][1]:
                 x2 = x[1] if x[0] == "cast" else x
-                if x2[0] == "fnitem" and len(x2) > 2 and len(x2[2]) == 1 and _is_boxed_ctor(lib, x2[1]):
+                if x2[0] == "closure" and not x2[2]:
+                    # `|| Box::new(AbsFn::new())` coerced to a function pointer
+                    kb = lib.fn(x2[1])
+                    r = Origins(kb, lib).of_local(0) if kb is not None else set()
+                    if r and all(y[0] == "call" and y[1].endswith("::new") and y[1].startswith("functions::") for y in r) and len(r) == 1:
+                        tys.add(next(iter(r))[1][: -len("::new")])
+                    else:
+                        tys.add("?closure " + fmt_terms(r)[:40])
+                elif x2[0] == "fnitem" and len(x2) > 2 and len(x2[2]) == 1 and _is_boxed_ctor(lib, x2[1]):
                     ty = x2[2][0]
                     if _default_is_new(lib, ty):
                         tys.add(ty)
